@@ -6,6 +6,10 @@ package policy
 import (
 	"strconv"
 
+	"github.com/gittuf/gittuf/internal/attestations"
+	"github.com/gittuf/gittuf/internal/signerverifier/dsse"
+	"github.com/gittuf/gittuf/pkg/rsl"
+
 	zzmem "github.com/gittuf/gittuf/internal/zzmem"
 	verif "github.com/gittuf/gittuf/internal/zzverif"
 	"github.com/gittuf/gittuf/pkg/githash"
@@ -247,4 +251,74 @@ func HarnessC11ForcePushSkipped() {
 		verif.Reach("rejected")
 	}
 	verif.Assert((err == nil) == descends, "block-force-pushes-compares-with-previous-unskipped-state")
+}
+
+// HarnessC01Tags: a tag namespace protected by a rule of threshold 1 or 2.
+// One or two entries are recorded for the same tag reference, both naming the
+// same tag object (signed by a symbolic signer; gittuf refuses tags that
+// move) and each optionally accompanied by an authorization for that exact
+// change signed by a symbolic subset of keys.
+// Full verification must accept only if, for every entry, the entry signer
+// plus the authorization signers reach the threshold and the tag object
+// itself is signed by a trusted principal.
+func HarnessC01Tags() {
+	const tagRef = "refs/tags/v1"
+	w := zzNewWorld()
+	threshold := verif.Concrete(verif.IntRange("threshold", 1, 2))
+	spec := zzBasePolicy([]int{0, 1}, nil)
+	spec.rules = append(spec.rules, zzRuleSpec{name: "protect-tags", pattern: "git:refs/tags/*", keys: []int{0, 1, 2}, threshold: threshold})
+	zzMust(w.zzStageAndApply(spec, w.zzBuildState(spec, []int{0}, []int{0}), 0))
+	w.zzPush(zzMain, 0, 1, false)
+	commit := w.tips[zzMain]
+
+	nentries := verif.Concrete(verif.IntRange("entries", 1, 2))
+	ok := true
+	from := githash.ZeroHash
+	tagSigner := zzSigner("tagsigner")
+	tagObj := w.S.RawTag(commit, tagSigner)
+	for i := 0; i < nentries; i++ {
+		p := "t" + strconv.Itoa(i)
+		// authorization for (tagRef, from, commit) signed by a symbolic subset of key0..key2
+		counted := []bool{false, false, false}
+		if verif.ConcreteBool(verif.Bool(p + ".authorized")) {
+			statement, err := attestations.NewReferenceAuthorizationForTag(tagRef, from.String(), commit.String())
+			zzMust(err)
+			env, err := dsse.CreateEnvelope(statement)
+			zzMust(err)
+			var signers []int
+			for k := 0; k < verif.Bound("authkeys", 2, 3); k++ {
+				if verif.ConcreteBool(verif.Bool(p + ".auth.sig" + strconv.Itoa(k))) {
+					signers = append(signers, k)
+					counted[k] = true
+				}
+			}
+			zzSignEnv(env, signers...)
+			cur, err := attestations.LoadCurrentAttestations(w.S)
+			zzMust(err)
+			zzMust(cur.SetReferenceAuthorization(w.S, env, tagRef, from.String(), commit.String()))
+			w.S.Signer = 0
+			zzMust(cur.Commit(w.S, "authorize tag", true, true))
+		}
+		entrySigner := zzSigner(p + ".entrysigner")
+		w.S.SetRef(tagRef, tagObj)
+		w.S.Signer = entrySigner
+		zzMust(rsl.NewReferenceEntry(tagRef, tagObj).Commit(w.S, true))
+
+		n := 0
+		for k := 0; k < 3; k++ {
+			n += verif.B2I(verif.Or(counted[k], entrySigner == k))
+		}
+		tagTrusted := verif.And(tagSigner >= 0, tagSigner <= 2)
+		ok = verif.And(ok, verif.And(n >= threshold, tagTrusted))
+		from = tagObj
+	}
+	_, err := zzVerifyFull(w, tagRef)
+	if err == nil {
+		verif.Reach("accepted")
+	} else {
+		verif.Reach("rejected")
+		verif.Observe("error", err.Error())
+	}
+	verif.Assert(verif.Implies(err == nil, ok), "accepted-implies-every-tag-entry-meets-the-threshold")
+	verif.Assert(verif.Implies(ok, err == nil), "authorised-tag-history-verifies")
 }
